@@ -33,6 +33,14 @@ static bool check_buffer(uint16_t st, const uint8_t *p, size_t n, size_t split, 
         if (got3 != want) { ok = false; if (record) vp::fail("octets:odd-address", vp::fmt("buffer of %zu octets at an odd address: %04x, reference %04x", n, got3, want), ser(st, p, n, split)); }
         if (st == 0 && ufw_buffer_crc16_arc(odd.p + 1, n) != want) { ok = false; if (record) vp::fail("octets:odd-address", "ufw_buffer_crc16_arc at an odd address", ser(st, p, n, split)); }
     }
+    if (n && ((n + split) % 5 == 0 || n > 30000)) {
+        // the buffer in read-only memory (a firmware image in flash, a file mapped read-only)
+        vp::RoBlock ro(p, n);
+        if (ro.p) {
+            if (ufw_crc16_arc(st, ro.p, n) != want) { ok = false; if (record) vp::fail("octets:read-only-memory", "checksum of a buffer in read-only memory differs", ser(st, p, n, split)); }
+            if (n % 2 == 0 && ((uintptr_t)ro.p % 2) == 0 && ufw_crc16_arc_u16(st, (const uint16_t *)ro.p, n / 2) != want) { ok = false; if (record) vp::fail("words:read-only-memory", "word variant on read-only memory differs", ser(st, p, n, split)); }
+        }
+    }
     {   // the same calls with the count written as an expression, the way callers write it (header length + payload length)
         size_t h = n / 3, t = n - h;
         if (ufw_crc16_arc(st, blk.p, h + t) != want || (st == 0 && ufw_buffer_crc16_arc(blk.p, h + t) != want)) { ok = false; if (record) vp::fail("octets:count-expression", "call with the count written as a sum differs", ser(st, p, n, split)); }
